@@ -57,7 +57,10 @@ def decodeCfg (t : List String) : Option Cfg := do
 def decodeCtx (t : List String) : Option Ctx := do
   let ip ← bytesOfHex (kvD t "ip" "_")
   let sec ← boolOf (kvD t "secure" "0")
-  some { clientIP := ip, secure := sec }
+  -- `remote=` (the connection's RemoteAddr as the runtime renders it) wins over `ip=`
+  match kv t "remote" with
+  | some ra => do some (connCtx (← bytesOfHex ra) sec)
+  | none => some { clientIP := ip, secure := sec }
 
 def decodeFields (s : String) : Option (List (Bytes × Bytes)) :=
   (splitList2 s).mapM fun e =>
